@@ -104,6 +104,15 @@ def run(ck, facts, tier):
     from rules import c06
     nd, tb = list(ck.not_decided), list(ck.trusted)
     c06.run(ck, facts, tier, only={"R06.0", "R06.1", "R06.2", "R06.3", "R06.6"})          # R06.3/R06.6: a named or explicit combination is built from exactly the calendars named / given
+    # a working week given as numbers must become exactly those weekdays (C07 R07.5, the Cal::new clause): the rolls above never look inside the calendar
+    if not getattr(ck, "_c06_c07_nested", False):
+        ck._c06_c07_nested = True
+        try:
+            from rules import c07
+            with ck.restrict({"R07.5"}):
+                c07.run(ck, facts, tier)
+        finally:
+            ck._c06_c07_nested = False
     ck.not_decided[:], ck.trusted[:] = nd, tb
     from rules import pywrap
     pywrap.run_calendar_wrappers(ck, facts)          # what a Python user calls is the wrapper: it must hand its arguments to the core method unchanged
